@@ -251,8 +251,8 @@ func c07GenDoc(t *rapid.T, ctx *Ctx) (doc []byte, note string) {
 			k = rapid.SampledFrom([]int{20000, 100000}).Draw(t, "depth2")
 		}
 		nestCBE := rapid.Bool().Draw(t, "nest.cbe")
-		if !nestCBE && k > 1001 {
-			k = 1001 // CTE parsing time is quadratic in the nesting depth (recorded under C08); C07 is about returning at all
+		if !nestCBE && k > 401 {
+			k = 401 // CTE parsing time is quadratic in the nesting depth (recorded under C08); C07 is about returning at all
 		}
 		return gen.Nest(t, nestCBE, k), "nested"
 	case 6:
